@@ -94,11 +94,23 @@ def sym_merged_reader(ctx, cfg):
     lens, desc, mode, assume_sorted = cfg["lens"], cfg["desc"], cfg["mode"], cfg["sorted"]
     zs, ids = _mk(ctx, lens, desc if assume_sorted else None)
     readers = []
-    for a, n in enumerate(lens):
-        df = sympd.DataFrame({"id": ids[a], "score": [SNum(z) for z in zs[a]], "payload": ["payload%d" % i for i in ids[a]]})
-        readers.append(T.DataFrameReader(df))
+    decs = None
+    if cfg.get("csv"):
+        # text inputs: every score is spelt with or without a decimal point; pandas infers int64 / float64 per CHUNK
+        from symx import vfs
+        vfs.reset()
+        decs = [[z3.Bool("dec_%d_%d" % (a, i)) for i in range(n)] for a, n in enumerate(lens)]
+        for a, n in enumerate(lens):
+            df = sympd.DataFrame({"id": ids[a], "score": [vfs.text_number(z, d, ctx) for z, d in zip(zs[a], decs[a])], "payload": ["payload%d" % i for i in ids[a]]})
+            p = vfs.VPath("/vfs/in%d.csv" % a)
+            vfs.put(p, df)
+            readers.append(T.TabularDataReader.from_path(p))
+    else:
+        for a, n in enumerate(lens):
+            df = sympd.DataFrame({"id": ids[a], "score": [SNum(z) for z in zs[a]], "payload": ["payload%d" % i for i in ids[a]]})
+            readers.append(T.DataFrameReader(df))
     cs = int(ctx.fresh_int("reader_chunk_size", 1, max(lens) + 1))
-    inputs = dict(scores=[[SNum(z) for z in row] for row in zs], chunk_size=cs)
+    inputs = dict(scores=[[SNum(z) for z in row] for row in zs], chunk_size=cs, decimal_point=[[core.SBool(d) for d in row] for row in decs] if decs else None)
     getter = lambda r, k: r[k]
     try:
         if mode == "dicts":
@@ -126,6 +138,12 @@ def sym_merged_reader(ctx, cfg):
             inv = z3.Or([(x < y if desc else x > y) for row in zs for x, y in zip(row, row[1:])] or [z3.BoolVal(False)])
             return PathOutcome([("rejected_only_if_unsorted", inv)], inputs, None, note="ValueError(unsorted)")
         return PathOutcome([], inputs, None, "exc", note="ValueError:" + str(ex)[:80])
+    except AssertionError as ex:
+        if cfg.get("csv") and "Column types do not match" in str(ex):
+            # schema precondition of the merger (an assert in its constructor): the inputs' first rows must be typed
+            # alike - text inputs whose first two scores are integers in one file and floats in another are refused
+            return PathOutcome([], inputs, None, "legit_exc", note="AssertionError(column types of the inputs differ)")
+        return PathOutcome([], inputs, None, "exc", note=type(ex).__name__ + ":" + str(ex)[:80])
     except Exception as ex:
         return PathOutcome([], inputs, None, "exc", note=type(ex).__name__ + ":" + str(ex)[:80])
     props = _oracle(rows, zs, ids, desc, getter)
@@ -167,6 +185,12 @@ def harnesses(tier):
                 hs.append(Harness("merged_reader%s,%s,%s" % (lens, "desc" if desc else "asc", mode), dict(lens=lens, desc=desc, mode=mode, sorted=True),
                                   sym_merged_reader, real="merged_reader", functions=[S.MergedTabularDataReader.get_row_iterator, S.MergedTabularDataReader.read, T.DataFrameReader.get_chunked_data_iterator],
                                   bounds=dict(inputs=len(lens), rows=lens), stubs=stubs, assumptions=["each input is sorted as declared (ties allowed)", "every input has >= 1 row"]))
+    for lens in ([[2, 2], [3, 1]] if tier == "quick" else [[2, 2], [3, 1], [3, 2], [2, 2, 1]]):
+        for desc in (True, False):
+            hs.append(Harness("merged_reader%s,%s,dicts,text files with scores spelt 6 or 6.0" % (lens, "desc" if desc else "asc"), dict(lens=lens, desc=desc, mode="dicts", sorted=True, csv=True),
+                              sym_merged_reader, real="merged_reader", functions=[S.MergedTabularDataReader.get_row_iterator, T.CSVFileReader.get_chunked_data_iterator],
+                              bounds=dict(inputs=len(lens), rows=lens), stubs=stubs + ["pandas.read_csv infers int64/float64 per chunk (value dtype and rendering)"],
+                              assumptions=["each input is sorted as declared (ties allowed)", "a score spelt without a decimal point is integral"], sample_rate=0.05))
     small = [l for l in mr if sum(l) <= (4 if tier == "quick" else 5)]
     for lens in small:
         for desc in (True, False):
@@ -242,7 +266,20 @@ def real_merged_reader(cfg, inp):
     import mokapot.tabular_data as T
     dfs = _frames(inp)
     desc, mode = cfg["desc"], cfg["mode"]
-    readers = [T.DataFrameReader(df) for df in dfs]
+    tmpd = None
+    if cfg.get("csv"):
+        import tempfile
+        from pathlib import Path
+        tmpd = tempfile.TemporaryDirectory(prefix="verif_c14t_")
+        readers = []
+        for a, (df, decrow) in enumerate(zip(dfs, inp["decimal_point"])):
+            t = df.copy()
+            t["score"] = [repr(float(x)) if d else str(int(x)) for x, d in zip(df["score"], decrow)]
+            p = Path(tmpd.name) / ("in%d.csv" % a)
+            t.to_csv(p, sep="\t", index=False)
+            readers.append(T.TabularDataReader.from_path(p))
+    else:
+        readers = [T.DataFrameReader(df) for df in dfs]
     is_sorted = all(all((x >= y) if desc else (x <= y) for x, y in zip(df["score"], df["score"][1:])) for df in dfs)
     try:
         m = S.MergedTabularDataReader(readers, "score", descending=desc, reader_chunk_size=int(inp["chunk_size"]))
@@ -269,8 +306,15 @@ def real_merged_reader(cfg, inp):
         if not is_sorted and "should be" in str(ex):
             return dict(exception="ValueError", violation=None)
         return dict(exception=repr(ex), violation="raised %r on %s inputs" % (ex, "sorted" if is_sorted else "unsorted"))
+    except AssertionError as ex:
+        if cfg.get("csv") and "Column types do not match" in str(ex):
+            return dict(exception="AssertionError", violation=None)
+        return dict(exception=repr(ex), violation="raised %r" % (ex,))
     except Exception as ex:
         return dict(exception=repr(ex), violation="raised %r" % (ex,))
+    finally:
+        if tmpd is not None:
+            tmpd.cleanup()
     return dict(outputs=None, violation=_conc_check(rows, dfs, desc))
 
 
